@@ -97,7 +97,7 @@ class LibMixin:
                   "filter", "pow", "delattr"):
             b[n] = F(n)
         for n, c in LibClass._reg.items():
-            if "." not in n and (n.endswith("Error") or n in ("Exception", "BaseException", "StopIteration",
+            if "." not in n and (n.endswith("Error") or n.endswith("Warning") or n in ("Exception", "BaseException", "StopIteration",
                                                                 "KeyboardInterrupt", "SystemExit", "GeneratorExit")):
                 b[n] = c
         b["NotImplemented"] = OpaqueV("NotImplemented")
@@ -178,6 +178,9 @@ class LibMixin:
         elif n == "contextlib":
             if attr in ("closing", "suppress", "contextmanager", "nullcontext"):
                 return F(f"contextlib.{attr}")
+        elif n == "warnings":
+            if attr in ("warn", "warn_explicit"):
+                return F("warnings.warn")
         elif n == "pkgutil":
             if attr == "resolve_name":
                 return F("pkgutil.resolve_name")
@@ -1036,6 +1039,18 @@ class LibMixin:
 
     def lib_contextlib_closing(self, a, kw, run, node):
         return CtxMgrV("closing", a[0])
+
+    def lib_warnings_warn(self, a, kw, run, node):
+        """warnings.warn(message, category): prints, or -- when the process runs with warnings turned into errors, as this project's own
+        test configuration does -- raises the category.  Which of the two is the environment's choice: both are paths."""
+        cat = a[1] if len(a) > 1 else kw.get("category", LibClass.get("UserWarning"))
+        msg = a[0] if a else kw.get("message")
+        if isinstance(msg, InstV):
+            cat = msg.cls
+        if isinstance(cat, (ClassV, LibClass)) and run.decide(("warnings-are-errors", getattr(cat, "name", "?")), self.site(node)):
+            run.emit("raise-site", getattr(cat, "name", "Warning"), self.site(node), "warnings.warn under -W error")
+            raise Raised(InstV(cat, {"args": (msg,)}), site=self.site(node))
+        return None
 
     def lib_contextlib_suppress(self, a, kw, run, node):
         m = CtxMgrV("suppress", None)
